@@ -2,9 +2,9 @@
 (* Model-checking wrapper for KeySetEnv.tla (honest operator + caches).    *)
 EXTENDS KeySetEnv, KeySetNames, Json
 
-T1   == {[D |-> 1, S |-> 1, R |-> 1]}
-T12  == {[D |-> d, S |-> s, R |-> r] : d \in 1..2, s \in 1..2, r \in 1..2}
-TD2  == {[D |-> 2, S |-> 1, R |-> 1], [D |-> 1, S |-> 2, R |-> 1], [D |-> 1, S |-> 1, R |-> 2]}
+T1   == {[D |-> 1, R |-> 1, S |-> 1]}
+T12  == {[D |-> d, R |-> r, S |-> s] : d \in 1..2, s \in 1..2, r \in 1..2}
+TD2  == {[D |-> 2, R |-> 1, S |-> 1], [D |-> 1, R |-> 1, S |-> 2], [D |-> 1, R |-> 2, S |-> 1]}
 
 \* the arguments of the last call do not matter
 EView == <<keys, rolls, pub, cache, ttls, last.res>>
